@@ -1,0 +1,28 @@
+//go:build verif
+// +build verif
+
+package zerolog
+
+// Verification hooks (build tag "verif" only): thin exported wrappers around the
+// internal CBOR-to-JSON decoder so that an external harness module can reach it.
+// Nothing here is compiled without the tag.
+
+import (
+	"io"
+
+	"github.com/rs/zerolog/internal/cbor"
+)
+
+// VerifCbor2JsonManyObjects exposes cbor.Cbor2JsonManyObjects.
+func VerifCbor2JsonManyObjects(src io.Reader, dst io.Writer) error {
+	return cbor.Cbor2JsonManyObjects(src, dst)
+}
+
+// VerifDecodeIfBinaryToBytes exposes cbor.DecodeIfBinaryToBytes.
+func VerifDecodeIfBinaryToBytes(in []byte) []byte { return cbor.DecodeIfBinaryToBytes(in) }
+
+// VerifDecodeIfBinaryToString exposes cbor.DecodeIfBinaryToString.
+func VerifDecodeIfBinaryToString(in []byte) string { return cbor.DecodeIfBinaryToString(in) }
+
+// VerifDecodeObjectToStr exposes cbor.DecodeObjectToStr.
+func VerifDecodeObjectToStr(in []byte) string { return cbor.DecodeObjectToStr(in) }
